@@ -1,6 +1,7 @@
 //! vcheck <Cxx> [--tier quick|thorough] [--replay file]
 mod checks;
 mod rig;
+mod formats;
 mod oracle;
 mod refzx;
 mod tapemodel;
